@@ -182,3 +182,17 @@ func init() {
 		return []*Term{ex.f.Eq(ex.bytesToStr(st, a[0]), ex.bytesToStr(st, o))}, true
 	})
 }
+
+func init() {
+	// errors.Wrap(err, msg) / Wrapf: nil exactly when err is nil
+	for _, n := range []string{"cosmossdk.io/errors.Wrap", "cosmossdk.io/errors.Wrapf", "github.com/cosmos/cosmos-sdk/types/errors.Wrap", "github.com/cosmos/cosmos-sdk/types/errors.Wrapf", "github.com/pkg/errors.Wrap", "github.com/pkg/errors.Wrapf"} {
+		reg(n, func(fr *Frame, st *State, c *ssa.CallCommon, args []*Term) ([]*Term, bool) {
+			ex := fr.ex
+			f := ex.f
+			r := f.Fresh("werr", SInt)
+			ex.assume(st, f.Ge(r, f.Int(0)))
+			ex.assume(st, f.Eq(f.Eq(r, f.Int(0)), f.Eq(args[0], f.Int(0))))
+			return []*Term{r}, true
+		})
+	}
+}
